@@ -49,7 +49,7 @@ ASSETS = {
     3: dict(js=True, css=True, mjs=("own", "shared.js"), mcss={"all": ("own",), "print": ("p.css",)}, base=False),
     4: dict(js=True, css=False, mjs=("shared.js",), mcss={"all": ("shared.css",)}, base=True, css_form="str"),
     # the shared JS file declared in another *form*: a pre-formatted, safe <script> tag (documented Media usage)
-    5: dict(js=False, css=True, mjs=("shared.js",), mcss={}, base=False, js_form="safetag"),
+    5: dict(js=False, css=True, mjs=("shared.js", "own"), mcss={}, base=False, js_form="safetag"),
     # the class has no Media of its own: it inherits the Media of an intermediate parent that says extend=False
     # (so the grandparent's base.js is NOT part of it, the parent's own files are)
     6: dict(js=True, css=False, mjs=("own",), mcss={"all": ("own",)}, base=False, via_parent=True),
@@ -120,7 +120,9 @@ def build_classes(prog, combo, names):
                 if a.get("js_form") == "safetag":
                     from django.utils.safestring import mark_safe
 
-                    m["js"] = [mark_safe('<script src="/static/%s" defer></script>' % f) for f in m["js"]]
+                    # the second file (if any) in the other documented spelling: single-quoted attribute, a data-src attribute first
+                    m["js"] = [mark_safe(('<script src="/static/%s" defer></script>' if i % 2 == 0 else "<script data-src=\"x\" src='/static/%s'></script>") % f)
+                               for i, f in enumerate(m["js"])]
             if a["mcss"]:
                 if a.get("css_form") == "str":
                     m["css"] = a["mcss"]["all"][0] if a["mcss"]["all"][0] != "own" else f"{letter}.css"
@@ -171,7 +173,18 @@ def wrap(page_src, wrapper):
 
 INLINE_JS = re.compile(r"<script>(.*?)</script>", re.S)
 INLINE_CSS = re.compile(r"<style>(.*?)</style>", re.S)
-SRC_JS = re.compile(r'<script src="([^"]*)"')
+_SRC_JS = re.compile(r"""<script\b[^>]*?(?<![\w-])src=(?:"([^"]*)"|'([^']*)')""")
+
+
+class _SrcJs:
+    """URL of every <script ... src=...> tag, whichever quote kind the (user-written, pre-formatted) tag uses"""
+
+    @staticmethod
+    def findall(html):
+        return [a or b for a, b in _SRC_JS.findall(html)]
+
+
+SRC_JS = _SrcJs
 LINK_CSS = re.compile(r'<link href="([^"]*)" media="([^"]*)"')
 JSON_SCRIPT = re.compile(r'<script type="application/json" data-djc>(.*?)</script>', re.S)
 MARKERS = ("_RENDERED", "<template djc-render-id", 'name="CSS_PLACEHOLDER"', 'name="JS_PLACEHOLDER"')
